@@ -113,5 +113,14 @@ func (s SuffrageProof) Prove(previousState base.State) error {
 		return e.WithMessage(err, "prove suffrage")
 	}
 
+	// NOTE the proof should lead to the states tree of the block map;
+	// without it, proof from the another tree can be proved.
+	switch nodes := s.proof.Nodes(); {
+	case len(nodes) < 1, nodes[len(nodes)-1] == nil:
+		return e.Errorf("empty root in proof")
+	case !nodes[len(nodes)-1].Hash().Equal(s.m.Manifest().StatesTree()):
+		return e.Errorf("root of proof does not match with states tree of manifest")
+	}
+
 	return nil
 }
